@@ -1714,9 +1714,15 @@ func (ex *Exec) floatToInt(f *Term, tw int, signed bool) Value {
 			}
 		}
 	}
-	// fast path: float known to be a small integer
-	if r := st.FToS(f, 64); r.Op != OFToS {
-		return st.Extract(r, tw-1, 0)
+	// fast path: float known to be a small integer that fits the hardware conversion width
+	{
+		cw := 64
+		if signed && tw <= 32 {
+			cw = 32
+		}
+		if iv, b, ok := st.fpInt(f); ok && b <= cw {
+			return st.Extract(iv, tw-1, 0)
+		}
 	}
 	if signed {
 		cw := 64
